@@ -246,13 +246,17 @@ pub trait Layout {
         if self.shape().iter().any(|d| d == 0) {
             return 0;
         }
+        // Use saturating arithmetic so that a layout whose maximum offset does
+        // not fit in a `usize` reports a length that no storage can satisfy,
+        // instead of a wrapped-around small value.
         let max_offset: usize = self
             .shape()
             .iter()
             .zip(self.strides().iter())
-            .map(|(size, stride)| (size - 1) * stride)
-            .sum();
-        max_offset + 1
+            .fold(0usize, |max_offset, (size, stride)| {
+                max_offset.saturating_add((size - 1).saturating_mul(stride))
+            });
+        max_offset.saturating_add(1)
     }
 
     /// Return a new layout formed by reshaping this one to `shape`.
@@ -563,7 +567,9 @@ impl<const N: usize> NdLayout<N> {
     fn contiguous_strides(shape: [usize; N]) -> [usize; N] {
         let mut strides = [0; N];
         for i in 0..N {
-            strides[i] = shape[i + 1..].iter().product();
+            strides[i] = shape[i + 1..]
+                .iter()
+                .fold(1usize, |stride, size| stride.saturating_mul(*size));
         }
         strides
     }
@@ -715,7 +721,7 @@ impl DynLayout {
         let mut stride = 1;
         for i in (0..shape.len()).rev() {
             strides_and_shape[shape.len() + i] = stride;
-            stride *= shape[i];
+            stride = stride.saturating_mul(shape[i]);
         }
         strides_and_shape
     }
